@@ -81,7 +81,7 @@ class LostWake:
         if self.ctx.spec.get('long'):
             # long histories: the (deep-copying) probe runs at every 10th instant that has a ready part
             self.n_ready_instants = getattr(self, 'n_ready_instants', 0) + 1
-            if self.n_ready_instants % 10:
+            if self.n_ready_instants % 10 or self.copies >= 300:
                 return
         self.instants_probed += 1
         ctx.count('instants_probed')
